@@ -308,6 +308,8 @@ _R4 = {
     "C10": " Round 4: swap histories (3/4 under the coarse clock) end with build, clean, build; the C10 monitor applies to every history in which a clean directly follows a successful build of the same goal and a build follows.",
     "C13": " Round 4: suite c13_neighbours — 2-4 rules reading the same source, one of them failing because an undeclared file is missing, the others succeeding, optionally everything built before; repair (optionally after a clean), build, build: every target holds its own output, nobody contradicts a record, the repeated build runs nothing; 60 quick / 800 thorough.",
     "C14": " Round 4: monitor — a Contradiction error names an earlier and a later line of its section, in file order.",
+    "C17": " Round 4: suite c17_kill — a repeated build with nothing changed (it rewrites every rule's history file) is killed at every point of its mutation sequence; from each crash state the undeclared input changes, a re-execution is forced and the build must report the contradiction (6 scenarios quick / 60 thorough, every crash point of each); a quarter of the c17 scenarios run on a file system whose reads come in pieces of 2 bytes.",
+    "C05": " Round 4: for every explored schedule of a clean, the order in which the clean threads moved files into the cache is replayed through Model/CleanFine.v (case kind cleanfine) and the whole observation compared; a fifth of the scenarios run on a file system whose reads come in pieces of 3 bytes.",
     "C18": " Round 4: in a third of the two-target swap histories the rule reads an undeclared, always empty file that is removed and put back between builds, so that its command fails after some targets were already restored.",
     "C19": " Round 4: after every invocation one cached entry is requested while a one-shot race renames it away right after the server's is_file answered true (what a build restoring that entry does): the answer must be the exact bytes or 404.",
     "C20": " Round 4: monitors on every explored schedule — a rule whose command ran and whose targets are in place has its status lines; the number of reported errors equals the number of failing rules and missing leaves.",
